@@ -97,6 +97,7 @@ def chanFor (pre post : World) (ad : Addr) (sid : Sid) (f : String) : String :=
     else if (kind = "ctrl" ∨ kind = "meta") ∧ mine then
       if ad.op = "pub" ∧ code ≠ "409" then userChn      -- {pub} answers under the publisher's name for the topic
       else if ad.op = "get" ∧ ad.what = "del" ∧ (kind = "meta" ∨ code = "204") then userChn
+      else if ad.op = "get" ∧ ad.what = "tags" ∧ kind = "meta" then userChn     -- replyGetTags: Topic.original
       else if ad.op = "sub" ∧ code = "200" then isRd post
       else ad.viaChn                                       -- everything else echoes the spelling of the request
     else sessChn || userChn                                -- broadcast: a reader's session, or a session of a user cached as a reader
@@ -206,11 +207,11 @@ def step (st : WSt) (ws : List String) : Option (WSt × String) :=
             let tn := if isUser t then p2pKey a.uid t else t
             let tagArg := kvGet m "tags"
             if isUser t ∧ t = a.uid then some (c0.emit a.sid (ctrl 403 tn)) else
-            some (c0.opSetTags a tn (if tagArg = "" then [] else tagArg.splitOn ",") (isUser t))
+            some (c0.opSetTags a tn (if tagArg = "" then [] else tagArg.splitOn ",") (isUser t) viaChn)
           | "get", t :: "tags" :: _ =>
             let tn := if isUser t then p2pKey a.uid t else t
             if isUser t ∧ t = a.uid then some (c0.emit a.sid (ctrl 403 tn)) else
-            some (c0.opGetTags a tn (isUser t))
+            some (c0.opGetTags a tn (isUser t) viaChn)
           | "get", t :: what :: _ =>
             let since := (decInt (kvGet m "since")).getD 0
             let before := (decInt (kvGet m "before")).getD 0
